@@ -258,6 +258,13 @@ func (x *Exec) strEq(a, b Value) *Term {
 		return tTrue
 	}
 	if !simpleAtoms(aa) || !simpleAtoms(ba) {
+		// a single opaque text compared with the empty string: its emptiness is a free Boolean
+		if len(ba) == 0 && len(aa) == 1 && aa[0].K == AOpq {
+			return x.opqEmptyVar(aa[0].S)
+		}
+		if len(aa) == 0 && len(ba) == 1 && ba[0].K == AOpq {
+			return x.opqEmptyVar(ba[0].S)
+		}
 		return x.imprecise("string comparison over opaque text")
 	}
 	ta, sa := splitTokens(aa)
